@@ -9,50 +9,25 @@ TECH = "deterministic simulation with fault injection"
 CLAIMED = {
     "C02": dict(
         level="exploration", design="4.1",
-        text=("Seeded search over simulated producers/links/disks: the real framer reads factory-built packet streams through a "
-              "bytes object, a real BufferedReader over a simulated raw disk (short reads, any buffer size), BytesIO, a real temp "
-              "file, and a socket.socket subclass whose recv is fed by a simulated TCP pipe with seeded write sizes, delays and "
-              "recv fragmentation; every item is compared byte-for-byte with what the factory built, and a consumer blocked "
-              "needing bytes beyond a packet's end is a violation. Sampling (not enumeration) of chunkings is the right level: the "
-              "space is unbounded and the failure modes (boundary in header, on packet end, trim branch) are probed and counted."),
-        note=("Trusted: the 40-line packet factory and CPython's io.BufferedReader. The 20 MB trim threshold is reached both "
-              "genuinely (a few >20 MB runs) and through a clone of ccsds_generator with only that constant replaced. No close/EOF "
-              "faults (C10)."),
+        text=("Seeded search over simulated producers/links/disks: the real framer reads factory-built packet streams (data fields 1..65536 incl. power-of-two lengths and the two all-same-bit packets; prefixes 0..300) through a bytes object, a real BufferedReader over a simulated raw disk (short reads, any buffer size, seekable or a non-seekable pipe), BytesIO, a real temp file, a GzipFile, and a socket.socket subclass whose receive methods are fed by a simulated TCP pipe with seeded write sizes, delays and fragmentation; every item is compared byte-for-byte with what the factory built, and a consumer blocked needing bytes beyond a packet's end is a violation. Sampling (not enumeration) of chunkings is the right level: the space is unbounded and the failure modes (boundary in prefix/header/body/on packet end, trim branch, max-size packets) are probed and counted."),
+        note=("Trusted: the 40-line packet factory and CPython's io.BufferedReader. The 20 MB trim threshold is reached genuinely (cases 0..4 push > 20 MB through bytes / file / socket / pipe) and through a clone of ccsds_generator (incl. nested helpers and named module constants) with only that value replaced. No close/EOF faults here (C10)."),
         technique=TECH + ": seeded schedules of producer writes / recv fragmentation / short disk reads, oracle = factory bytes"),
     "C10": dict(
         level="fault_enumeration", design="4.2",
-        text=("The producer/link/recorder is crashed at EVERY byte offset of each sampled small stream (and at drawn offsets near "
-              "packet/header boundaries of longer ones) for bytes, file and socket sources (FIN; separately RST, stall+timeout, disk "
-              "EIO). Termination is decided deterministically by the simulated source (9th read after EOF is fatal, item cap), "
-              "the yielded list must equal a 15-line reference framing of the delivered bytes, and nothing but StopIteration (or the "
-              "injected I/O error object itself) may come out."),
+        text=('The producer/link/recorder is crashed at EVERY byte offset of each sampled small stream (and at drawn offsets near packet/header boundaries of longer ones, of streams with 32-64 KiB packets and of genuine > 20 MB streams) for bytes, seekable and non-seekable file, BytesIO and socket sources (FIN; separately RST, stall+timeout, disk EIO), also after the buffer trim (threshold knob). Termination is decided deterministically by the simulated source (9th read after EOF is fatal, item cap, wall-clock backstop -> kind=hang), the yielded list must equal a 15-line reference framing of the delivered bytes, and nothing but StopIteration (or the injected I/O error: the object, a chained exception, or an OSError of the same class and errno) may come out.'),
         note=("Crash points are exhaustive per enumerated workload; workloads (packet sizes, k, read size, chunking) are sampled. "
               "Warnings are not judged. Trusted: reference framer, CPython io."),
         technique=TECH + ": crash-point enumeration of the byte source (EOF/FIN/RST/timeout/EIO) with an EOF-read budget as "
                          "liveness oracle and a reference framer"),
     "C12": dict(
         level="exploration", design="4.4",
-        text=("Seeded search over simulated space-link histories: per-APID instrument producers with their own 14-bit counters, "
-              "a multiplexer, and a link that drops, duplicates, delays/reorders, flag-flips and count-jumps packets and restarts "
-              "producers; plus direct histories (flag, APID, counter step per arrival, up to 60 arrivals) and, as a warm-up, every "
-              "history of length <= 4 over 4 flags x 2 APIDs x {in-sequence, gap}. Each arrival is stamped with its arrival index; "
-              "the real packet_generator(combine_segmented_packets=True, secondary_header_bytes=0..8,100) consumes it through "
-              "bytes / simulated disk / simulated socket. Every output and warning is attributed to the arrival being handled and "
-              "compared with a 25-line per-APID reference model run as a nondeterministic acceptor (the one open question, an "
-              "UNSEGMENTED packet inside an open group, is accepted under both readings)."),
-        note=("Histories are sampled (exhaustive only up to length 4); outputs compared by raw_data with a header-only "
-              "definition; warnings are required only where the model drops with a warning, never matched by text."),
+        text=('Seeded search over simulated space-link histories: per-APID instrument producers with their own 14-bit counters, a multiplexer, and a link that drops, duplicates, delays/reorders, flag-flips and count-jumps packets, restarts producers and may die at a drawn byte; plus direct histories (flag, APID, counter step per arrival, up to 60 arrivals, up to 48 APIDs with open groups, header bits varying between segments) and every history of length <= 4 over 4 flags x 2 APIDs x {in-sequence, gap}. Each arrival is stamped with its arrival index; the real packet_generator(combine_segmented_packets=True, secondary_header_bytes=0..8,100) consumes it through bytes / simulated disk / simulated socket. The sequence of outputs (raw_data) must be exactly what a 25-line per-APID reference model emits; warnings required by the model (orphan CONTINUATION/LAST, LAST closing a gapped group) are judged in the runs where outputs validate the attribution of warnings to arrivals.'),
+        note=('Histories are sampled (exhaustive only up to length 4); outputs compared by raw_data with a header-only definition; a warning is any warnings.warn or WARNING-level library log record, never matched by text; when a library frames ahead of what it handles, warnings are unjudged and only the output sequence is.'),
         technique=TECH + ": seeded space-link fault histories (drop/dup/reorder/flag-flip/count-jump/producer restart) checked "
                          "per arrival against a per-APID reassembly reference model"),
     "C19": dict(
         level="exploration", design="4.6",
-        text=("A recorder task writes n uniquely numbered packets to a simulated disk and may crash mid-write; cli.open is the "
-              "simulated disk's open (real BufferedReader over a raw device with drawn buffer size and short reads, and an "
-              "EOF-read budget that decides non-termination deterministically). spp describe-packets and spp parse [--packet i] "
-              "[--skip-header-bytes k] run through click's CliRunner. Exhaustive sweep in every run: n = 0..14, every index "
-              "0..n+1; seeded part: n up to 60, torn tails, prefixes, chunking. Oracle: exit code 0, no exception, rows == "
-              "expected header tuples (all if <= 10, else 5 + ellipsis + 5), parse shows exactly the indexed packet's unique "
-              "counter or an out-of-range message."),
+        text=("A recorder task writes n uniquely numbered (or deliberately byte-identical) packets to a simulated disk and may crash mid-write or append garbage; cli.open is the simulated disk's open (real BufferedReader over a raw device with drawn buffer size and short reads, and an EOF-read budget that decides non-termination deterministically). spp describe-packets and spp parse [--packet i] [--skip-header-bytes k] run through click's CliRunner. Exhaustive sweep in every run: n = 0..14, every index 0..n+1; seeded part: n up to 1100, indices -(n+3)..n+1, torn and garbage tails, 32-64 KiB packets, prefixes, chunking. Oracle: no traceback, termination, rows == expected header tuples (all if <= 10, else 5 + ellipsis + 5), parse shows exactly the indexed packet's counter or an out-of-range message."),
         note=("The row-selection sentence is a pure function of n and is swept exhaustively over the stated bound; what makes "
               "this a simulation target is termination/no-crash on every file incl. empty and torn ones. Output is parsed "
               "from rich's table (seven integer cells per row)."),
@@ -60,14 +35,7 @@ CLAIMED = {
                          "through CliRunner; exhaustive n/index sweep plus seeded files"),
     "C16": dict(
         level="exploration", design="4.5",
-        text=("Each run is one freshly forked process executing a seeded history of 2-12 operations over 1-3 generated XTCE "
-              "documents: successful loads in any namespace convention (prefix of any name incl. non-ASCII, default namespace, "
-              "none), comment placement and whitespace style, through str path / Path / file object on a simulated disk / "
-              "load_xml; failing loads injected as faults (malformed XML, file torn at a drawn byte, wrong xtce_ns_prefix, "
-              "dangling parameterRef, unsupported type, disk I/O error mid-document); and uses of earlier definitions between "
-              "loads. Every successful load (and every later use of its result) is compared -- reflective fingerprint of the "
-              "definition plus decode of a fixed probe-packet set -- with the baseline computed in a child forked from the "
-              "pristine process state that loads the canonical rendering as its first and only load."),
+        text=('Each run is one freshly forked process executing a seeded history of 2-12 operations over 1-3 generated XTCE documents: successful loads in any namespace convention (prefix of any name incl. non-ASCII, element-like and drawn NCNames; default namespace; none), comment placement and whitespace style, through str path / Path (few, re-used paths) / file object on a simulated disk / load_xml; failing loads injected as faults (malformed XML, file torn at a drawn byte, wrong xtce_ns_prefix, dangling parameterRef, unsupported type, disk I/O error mid-document); and uses of earlier definitions between loads. The history is drawn first, every baseline is computed in its own pristine child, then the history runs: each successful load (and each later use of its result) is compared with the canonical rendering loaded first (fingerprint + decode of a fixed probe-packet set) and with the same bytes loaded first (namespace bookkeeping + serialisation); a document that does not load canonically must not load in any other spelling either.'),
         note=("The history half (process-wide class-level namespace state written by every load) is what the simulator owns; "
               "the spelling half rides on the same oracle. Documents come from a bounded generated family (<= 4 APID branches, "
               "two-level inheritance, nested containers, every parameter-type/encoding/calibrator/criteria reader). Both sides "
@@ -76,15 +44,7 @@ CLAIMED = {
                          "load-it-first baseline from a pristine child"),
     "C11": dict(
         level="exploration", design="4.3",
-        text=("Each run (one freshly forked process) loads 1-2 generated XTCE documents, creates 1-6 packet generators with drawn "
-              "options over bytes / simulated disk / simulated sockets on one shared event queue, and lets a seeded scheduler "
-              "decide which generator receives each next(), when one is abandoned (close), when another document is loaded "
-              "(other namespace convention, possibly failing) and when parse_ccsds_packet is called directly on the shared "
-              "definition in between. Streams mix recognised, unknown-APID, ambiguous, two-level dead-end and wrong-length "
-              "packets. Every generator's item and warning sequences must equal the concatenation of what a fresh generator "
-              "yields for each packet alone on a separately loaded definition object (computed in stream order and in reverse "
-              "order on two objects, which must agree); category facts known by construction are checked directly; fingerprint "
-              "and serialisation of each shared definition must be unchanged."),
+        text=("Each run (one freshly forked process in which nothing is parsed before the interleaving starts) loads 1-2 generated XTCE documents, creates 1-6 packet generators with drawn options over bytes / simulated disk / simulated sockets on one shared event queue, and lets a seeded scheduler decide which generator receives each next(), when one is abandoned (close), when another document is loaded, when parse_ccsds_packet is called directly on the shared definition, and when one generator's own disk or link fails. Streams mix recognised, unknown-APID, ambiguous, two-level dead-end and wrong-length packets and, for combining generators, segment groups with foreign packets inside. Every generator's item sequence must equal the concatenation of what a fresh generator yields for each unit alone on a separately loaded definition (computed in pristine child processes, in stream order and in reverse order, which must agree); category facts known by construction are checked directly; yielded objects must not change later; fingerprint and serialisation of each shared definition must be unchanged."),
         note=("Both sides of the main comparison are the library; the property is that they agree. Packets whose stand-alone "
               "parse raises (which would end a generator; the statement is silent) are weeded out at plan time and counted. "
               "One thread: no pre-emption inside next()."),
